@@ -66,7 +66,7 @@ def ops_for(nslots):
             ('new', i, None), ('new-attrs', i, None),
             ('parse', i, 0), ('parse', i, 1), ('parse', i, 2),
             ('add-change', i, None), ('add-change-attrs', i, None),
-            ('add-file', i, None),
+            ('add-file', i, None), ('add-file-big', i, None),
             ('mut-meta', i, None), ('mut-meta-nested', i, None),
             ('mut-options', i, None), ('mut-file-meta', i, None),
             ('mut-content-options', i, None),
@@ -95,7 +95,7 @@ def enabled(world, op):
         return False
     if name == 'eq':
         return world.trees[arg] is not None
-    if name == 'add-file':
+    if name in ('add-file', 'add-file-big'):
         return _last_change(t) is not None
     if name in ('mut-file-meta', 'set-diff', 'set-diff-type'):
         return _last_file(t) is not None
@@ -123,6 +123,11 @@ def apply(world, op):
     elif name == 'add-file':
         _last_change(t).add_file(meta={'path': 'p', 'n': {'a': []}},
                                  diff=SAMPLE_DIFF, diff_type='text')
+    elif name == 'add-file-big':
+        # equal (not identical) 70 KB diffs in every tree that gets one
+        big = ('\n'.join('@@ -%d +%d @@\n-o%d\n+n%d' % (k, k, k, k)
+                         for k in range(1, 3300)) + '\n').encode('ascii')
+        _last_change(t).add_file(meta={'path': 'big'}, diff=big)
     elif name == 'mut-meta':
         t.meta['x'] = 'y'
     elif name == 'mut-meta-nested':
@@ -248,7 +253,7 @@ def _s(x):
 
 def _generic(a, b):
     import re
-    f = lambda p: re.sub(r'\[\d+\]', '[]', re.sub(r'^[a-z0-9]+:', '', p))
+    f = lambda p: re.sub(r'\[[^\]]*\]', '[]', re.sub(r'^[a-z0-9]+:', '', p))[:70]
     return '%s~%s' % (f(a), f(b))
 
 
